@@ -45,13 +45,13 @@ EYE_NOTE = ("Trusted base: tokio paused clock (virtual time exact at 1 ms); the 
             "EyeballSet; the harness reference simulation, which is only used for exact comparison when it reports no tie.")
 
 CHECKS.update({
-    "C10": dict(engine="eyeballs", ref="§5 C10/C11, §4 E4",
+    "C10": dict(engine="eyeballs+tcpeyes", ref="§5 C10/C11, §4 E4, §10.3",
         technique="property-based testing in virtual time: exhaustive small-scope enumeration plus random attempt sets against statement-derived necessary conditions and a differential reference (discrete-event simulation)",
-        text="Every combination of up to 2 (quick) / 3 (thorough) scripted attempts over the outcome/latency/stagger/timeout/concurrency grid is enumerated, plus random sets of up to 8 attempts: the result must be the first success, failure only after every candidate failed (first failure), timeout only at the deadline without an earlier success, no-progress only for the empty set; tie-free cases must equal the reference exactly.",
+        text="Every combination of up to 2 (quick) / 3 (thorough) scripted attempts over the outcome/latency/stagger/timeout/concurrency grid is enumerated, plus random sets of up to 8 attempts: the result must be the first success, failure only after every candidate failed (first failure), timeout only at the deadline without an earlier success, no-progress only for the empty set; tie-free cases must equal the reference exactly. A transport-level leg runs the real TcpTransport::connect_to_addrs over loopback candidates that accept, refuse or hang (listener with a full accept queue) with timeout in {none, 1.2, 1.6, 2.4 s} and concurrency in {none, 0..3}: outcome and completion time must match the reference for stagger = timeout / number of addresses (banded real-time assertions).",
         note=EYE_NOTE),
-    "C11": dict(engine="eyeballs", ref="§5 C10/C11, §4 E4",
+    "C11": dict(engine="eyeballs+tcpeyes", ref="§5 C10/C11, §4 E4, §10.3",
         technique="property-based testing in virtual time: recorded first-poll instants of scripted attempts checked against ordering/pacing/deadline conditions and a differential reference",
-        text="Same domain as C10: attempts start in index order, each at most once, at most the configured number at t=0, each later start justified by an elapsed stagger delay, a failure or idleness and never later than the stagger tick; the operation ends by the deadline; tie-free cases must reproduce the reference start instants exactly.",
+        text="Same domain as C10: attempts start in index order, each at most once, at most the configured number at t=0, each later start justified by an elapsed stagger delay, a failure or idleness and never later than the stagger tick; the operation ends by the deadline; tie-free cases must reproduce the reference start instants exactly. A transport-level leg runs the real TcpTransport::connect_to_addrs over loopback candidates that accept, refuse or hang (listener with a full accept queue) with timeout in {none, 1.2, 1.6, 2.4 s} and concurrency in {none, 0..3}: outcome and completion time must match the reference for stagger = timeout / number of addresses (banded real-time assertions).",
         note=EYE_NOTE),
     "C16": dict(engine="addrsort", ref="§5 C16, §4 E7",
         technique="exhaustive small-scope enumeration plus property-based testing against an independent specification (stable partition); end-to-end differential leg over loopback listeners",
